@@ -501,3 +501,46 @@ def guard_desc(prog, fn, pv, e):
             continue
         out.append("cond(%s %s %s)" % (show(c[0])[:60], c[1], c[2]))
     return out or ["always"]
+
+
+def chase_ref_to_local(pv, op, bb, idx, depth=0):
+    """for an operand that is (a reborrow of) `&local`, return (local, bb, idx) where idx is the point of the borrow"""
+    if depth > 8 or op["k"] not in ("copy", "move") or op["place"]["p"]:
+        return None
+    ds = [d for d in pv.reaching(op["place"]["l"], bb, idx)]
+    if len(ds) != 1 or ds[0] == -1:
+        return None
+    dl, dbb, didx, payload = pv._defs[ds[0]]
+    if didx == "term":
+        return None
+    if payload["k"] == "use":
+        return chase_ref_to_local(pv, payload["op"], dbb, didx, depth + 1)
+    if payload["k"] == "ref":
+        pl = payload["place"]
+        if not pl["p"]:
+            return pl["l"], dbb, didx
+        if len(pl["p"]) == 1 and pl["p"][0][0] == "deref":
+            return chase_ref_to_local(pv, {"k": "copy", "place": {"l": pl["l"], "p": []}}, dbb, didx, depth + 1)
+    return None
+
+
+def array_passed_to_writer(fn, pv):
+    """for a *_structure_data function: (into_writer bb, elements of the Value::Array it serialises) or (None, why)"""
+    writers = [(bb, t) for bb, t in fn.calls() if (callee_path(t) or "").startswith("ciborium::") and "into_writer" in callee_path(t)]
+    if len(writers) != 1:
+        return None, "expected exactly one into_writer call, found %d" % len(writers)
+    bb, t = writers[0]
+    r = chase_ref_to_local(pv, t["args"][0], bb, "term")
+    if r is None:
+        return None, "cannot find the value handed to into_writer"
+    l, rbb, ridx = r
+    d = find_def_stmt(pv, {"k": "copy", "place": {"l": l, "p": []}}, rbb, ridx)
+    if not d or d[0] != "stmt" or d[1]["k"] != "aggr" or d[1].get("adt") != "ciborium::Value" or d[1].get("variant") != "Array":
+        return None, "the serialised value is not a Value::Array literal"
+    op = d[1]["ops"][0]
+    if op["k"] not in ("copy", "move") or op["place"]["p"]:
+        return None, "array payload is not a local"
+    els = vec_elements(fn, pv, op["place"]["l"], d[2], d[3])
+    if els is None:
+        return None, "cannot follow how the array is built"
+    return (bb, els), None
